@@ -126,7 +126,7 @@ pub fn drive(args: &[String]) {
     }
     // (b) generator outputs, renumberings, duals and small covers: larger symbols
     let mut big: Vec<PartialDSym> = vec![];
-    for s in generated_2d(maxgen) {
+    for s in generated_2d_reach(maxgen, 7, 60, &mut rng) {
         if s.size() >= 4 && rng.gen_bool(0.5) {
             big.push(renumber(&s, &rand_perm(s.size(), &mut rng)));
             for c in small_covers(&s, 2).into_iter().take(1) { big.push(c); }
